@@ -102,6 +102,7 @@ class BlsFamily:
                 yield dict(kind="sign_aug_prefix", suite=s_, sk=sk, m=rb(5).hex())
                 yield dict(kind="sign_history", suite=s_, sk=sk)
         if meth in ("KeyValidate", "_is_valid_pubkey", "Verify", "PopVerify", "_CoreVerify"):
+            yield dict(kind="sign_history", suite="G2ProofOfPossession", sk=rng.randrange(1, R))
             for s_ in suites:
                 yield dict(kind="keys", suite=s_, sk=rng.randrange(1, R), extra=[rb(1).hex(), rb(3).hex()])
             for s_ in suites:
@@ -177,6 +178,16 @@ class BlsFamily:
                 return dict(why="a signature made under another suite's tag verifies")
             if P_.Verify(pk, pk, P_.PopProve(sk)) is not False or P_.PopVerify(pk, P_.Sign(sk, pk)) is not False:
                 return dict(why="a possession proof is accepted as a message signature (or vice versa)")
+            # one message signed and verified honestly under every suite, in sequence, in one process
+            m1 = b"the same message"
+            for sn in ("G2Basic", "G2ProofOfPossession", "G2MessageAugmentation", "G2Basic"):
+                S_ = getattr(B, sn)
+                if S_.Verify(pk, m1, S_.Sign(sk, m1)) is not True:
+                    return dict(why=f"honest signature does not verify in {sn} after the same message was used under another suite's tag")
+            if P_.Verify(pk, pk, P_.Sign(sk, pk)) is not True or P_.PopVerify(pk, P_.PopProve(sk)) is not True:
+                return dict(why="honest signature / possession proof on the key bytes does not verify (history dependence)")
+            if B.G2MessageAugmentation.Verify(pk, b"", B.G2MessageAugmentation.Sign(sk, b"")) is not True:
+                return dict(why="honest AUG signature of the empty message does not verify after PK was used as a message")
             for wrong in (1.0, "1"):
                 try:
                     P_.SkToPk(1)
@@ -325,6 +336,17 @@ class BlsFamily:
                     checks += [("fast: valid", fav(pks, m0, a0), True), ("fast: other message", fav(pks, b"x", a0), False),
                                ("fast: empty", fav([], m0, a0), False), ("fast: malformed key", fav([b"\x00" + pks[0]] + pks[1:], m0, a0), False),
                                ("fast: non-subgroup key", fav([g1_nonsub(rng)] + pks[1:], m0, a0), False)]
+                    # two keys outside the subgroup whose cofactor components cancel: a.G + T and b.G - T
+                    from py_ecc.optimized_bls12_381 import G1, multiply as mul_, add as add_, neg as neg_, FQ
+                    from py_ecc.bls.point_compression import compress_G1, decompress_G1
+                    Rpt = decompress_G1(int.from_bytes(g1_nonsub(rng), "big"))
+                    T = mul_(Rpt, R)
+                    a_, b_ = rng.randrange(1, R), rng.randrange(1, R)
+                    ka = int(compress_G1(add_(mul_(G1, a_), T))).to_bytes(48, "big")
+                    kb = int(compress_G1(add_(mul_(G1, b_), neg_(T)))).to_bytes(48, "big")
+                    sgab = oracle_sig((a_ + b_) % R, m0, tag)
+                    checks += [("fast: two non-subgroup keys whose cofactor parts cancel", fav([ka, kb], m0, sgab), False),
+                               ("fast: the same, interleaved with a good key", fav([ka, pks[0], kb], m0, bytes(S.Aggregate([sgab, sgs[0]]))), False)]
                     if n >= 2:
                         checks += [("fast: dropped signer", fav(pks[:-1], m0, a0), False), ("fast: duplicated signer", fav(pks + [pks[0]], m0, a0), False),
                                    ("fast: repeated key signed twice", fav(pks + [pks[0]], m0, bytes(S.Aggregate(sgs + [sgs[0]]))), True)]
